@@ -60,12 +60,14 @@ CallsB == {STR(nm, "plain") : nm \in NamesB \cup {"k1", "d2"}}
           \cup {MET(nm, <<"U">>, "none", d, "none") : nm \in NamesB, d \in {NoDims, K1V1, AV1}}
           \cup {MET("a", <<>>, "none", NoDims, "none"), MET("a", <<"NaN">>, "none", K1V1, "none")}
           \cup {ERRV("a"), EMPTYV("a"), EMPTYV(""), ERRV("_aws")}
-          \cup {TS("t1"), CFG("split"), CFG("ed_d2"), CFG("unroutable")}
+          \cup {TS("t1"), CFG("split"), CFG("ed_d2"), CFG("ed_unit"), CFG("unroutable")}
 NextB(h) == CallsB
 
 \* ------------------------------------------------------------------ slice C
 ConfigsC == {CfgRec(dd, 2, ig, "none", FALSE, FALSE) : dd \in DDs, ig \in BOOLEAN}
-CallsC == {CFG("split"), CFG("ed_d2"), CFG("ed_two"), CFG("ed_empty"), STR("d1", "plain"), STR("d2", "nasty")}
+CallsC == {CFG("split"), CFG("ed_d2"), CFG("ed_two"), CFG("ed_empty"), CFG("ed_unit"), STR("d1", "plain"), STR("d2", "nasty")}
+          \cup {MET("s", <<"F">>, "std", NoDims, "nometric"), MET("s", <<"U">>, "none", NoDims, "hires"),
+                MET("s", <<"U">>, "custom", K1V1, "nometric"), MET("s", <<"F">>, "none", K1V2, "hires")}
           \cup {MET(nm, <<"U">>, "none", d, "none") : nm \in {"a", "b"}, d \in {NoDims, K1V1, K1V2, K2K1, AV1}}
           \cup {MET("b", <<"NaN">>, "std", K1V1, "none"), MET("b", <<"F">>, "std", K1K2, "nometric")}
 NextC(h) == CallsC
@@ -108,6 +110,20 @@ Catalogue == {
     Base \o <<EMPTYV("a"), MET("a", <<"U">>, "none", NoDims, "none"), EMPTYV("b")>>,
     Base \o <<MET("", <<"U">>, "none", NoDims, "none")>>,
     Base \o <<STR("_aws", "plain"), MET("a", <<"U">>, "none", NoDims, "none")>>,
+    \* flags next to split records: dimension-less metrics that are all NoMetric still need the global record
+    Base \o <<MET("a", <<"U">>, "std", K1V1, "none"), MET("b", <<"F">>, "custom", NoDims, "nometric")>>,
+    Base \o <<MET("b", <<"F">>, "custom", NoDims, "nometric"), MET("a", <<"U">>, "std", K1V1, "none"), MET("s", <<"U", "F">>, "none", NoDims, "nometric")>>,
+    Base \o <<MET("a", <<"U">>, "std", K1V1, "none"), MET("b", <<"F">>, "custom", NoDims, "nometric"), MET("s", <<"U">>, "none", NoDims, "hires")>>,
+    Base \o <<MET("a", <<"U">>, "std", K1V1, "nometric"), MET("b", <<"F">>, "none", NoDims, "hires")>>,
+    Base \o <<MET("a", <<"U">>, "std", K1V1, "nometric")>>,
+    Base \o <<MET("a", <<"NaN">>, "std", K1V1, "none"), MET("b", <<"F">>, "custom", NoDims, "nometric")>>,
+    Base \o <<MET("b", <<"F">>, "custom", NoDims, "nometric")>>,
+    \* a single empty entry-dimension set is a configuration like any other
+    Base \o <<CFG("ed_unit"), MET("a", <<"U">>, "std", NoDims, "none"), MET("b", <<"U">>, "none", K1V1, "none")>>,
+    Base \o <<STR("d2", "plain"), CFG("ed_unit"), CFG("ed_d2"), MET("a", <<"U">>, "none", NoDims, "none")>>,   \* twice
+    Base \o <<STR("d2", "plain"), CFG("ed_d2"), CFG("ed_unit"), MET("a", <<"U">>, "none", NoDims, "none")>>,   \* twice
+    Base \o <<CFG("ed_unit"), CFG("ed_unit"), MET("a", <<"U">>, "none", NoDims, "none")>>,                     \* twice
+    Base \o <<MET("a", <<"U">>, "none", K1V1, "none"), CFG("ed_unit")>>,                                      \* late
     \* every listed defect injected alone into an otherwise valid entry
     Base \o <<STR("d2", "plain"), MET("a", <<"U">>, "none", K1V1, "none"), CFG("ed_d2")>>,            \* late
     Base \o <<STR("d2", "plain"), CFG("ed_d2"), CFG("ed_two"), MET("a", <<"U">>, "none", NoDims, "none")>>,  \* twice
@@ -130,7 +146,7 @@ ConfigsDq == {CfgRec(dd, ns, ig, m, ns = 3, ns = 2) : dd \in DDs, ns \in 1..3, i
 
 \* ------------------------------------------------------------------ slice E
 NamesE == {"a", "b", "s", "d1", "d2", "k1", "", "_aws"}
-CallsE == {TS("t1"), TS("t0"), CFG("split"), CFG("unroutable"), CFG("ed_d2"), CFG("ed_two"), CFG("ed_empty")}
+CallsE == {TS("t1"), TS("t0"), CFG("split"), CFG("unroutable"), CFG("ed_d2"), CFG("ed_two"), CFG("ed_empty"), CFG("ed_unit")}
           \cup {STR(nm, sv) : nm \in NamesE, sv \in {"plain", "nasty"}}
           \cup {MET(nm, o, u, d, f) : nm \in NamesE, o \in ObsLists, u \in Units,
                                       d \in {NoDims, K1V1, K1V2, AV1, K2K1}, f \in Flags}
@@ -139,7 +155,7 @@ NextE(h) == CallsE
 \* simulation that is biased towards accepted entries: a valid prefix, then anything
 InitE == {<<>>, Base, <<CFG("split"), STR("d1", "plain"), STR("d2", "plain"), CFG("ed_two")>>}
 ObsE2 == {<<"U">>, <<"F">>, <<"U", "NaN">>, <<"NaN">>, <<"Rep4", "F">>, <<"RepBig", "Rep0">>, <<"PInf", "U", "RepNaN">>, <<>>}
-CallsE2 == {TS("t1"), CFG("split"), CFG("ed_d2"), CFG("ed_two")}
+CallsE2 == {TS("t1"), CFG("split"), CFG("ed_d2"), CFG("ed_two"), CFG("ed_unit")}
            \cup {STR(nm, sv) : nm \in {"a", "b", "s"}, sv \in {"plain", "nasty"}}
            \cup {MET(nm, o, u, d, f) : nm \in {"a", "b", "s"}, o \in ObsE2, u \in Units, d \in {NoDims, K1V1, K1V2, K2K1}, f \in Flags}
            \cup {EMPTYV(nm) : nm \in {"a", "b"}}
